@@ -486,8 +486,10 @@ def _main(args=None):
     else:
         script_file = find_script(options.script)
         # Make sure the script's directory is on sys.path instead of
-        # just kernprof.py's.
-        sys.path.insert(0, os.path.dirname(script_file))
+        # just kernprof.py's: like `python script.py`, the directory of
+        # the file itself (symbolic links resolved), as an absolute path
+        # (a relative entry would move with `os.chdir()`)
+        sys.path.insert(0, os.path.dirname(os.path.realpath(script_file)))
     __file__ = script_file
     __name__ = '__main__'
 
